@@ -1,0 +1,55 @@
+//go:build verif
+
+package handshake
+
+import (
+	"github.com/refraction-networking/uquic/internal/protocol"
+	"github.com/refraction-networking/uquic/internal/utils"
+)
+
+// Export shims for the verification harness in /verif (compiled only with -tags verif).
+// Add-only, no behaviour change: thin constructors around the unexported cipher suite table,
+// createAEAD, newLongHeaderSealer/Opener, newHeaderProtector and newUpdatableAEAD, exactly as
+// cryptoSetup.setReadKey / setWriteKey use them.
+
+// VerifUpdatableAEAD is the 1-RTT AEAD surface that cryptoSetup, the packet packer and the packet
+// unpacker use.
+type VerifUpdatableAEAD interface {
+	ShortHeaderOpener
+	ShortHeaderSealer
+	SetLargestAcked(protocol.PacketNumber) error
+	SetHandshakeConfirmed()
+	FirstPacketNumber() protocol.PacketNumber
+}
+
+// VerifNewUpdatableAEAD creates a 1-RTT AEAD from two traffic secrets. readFirst selects the order in
+// which the keys are installed: the client installs the read key first, the server the write key.
+func VerifNewUpdatableAEAD(suiteID uint16, readSecret, writeSecret []byte, readFirst bool, rttStats *utils.RTTStats, v protocol.Version) VerifUpdatableAEAD {
+	suite := getCipherSuite(suiteID)
+	a := newUpdatableAEAD(rttStats, nil, utils.DefaultLogger, v)
+	if readFirst {
+		a.SetReadKey(suite, readSecret)
+		a.SetWriteKey(suite, writeSecret)
+	} else {
+		a.SetWriteKey(suite, writeSecret)
+		a.SetReadKey(suite, readSecret)
+	}
+	return a
+}
+
+// VerifNewLongHeaderSealer creates a long header sealer (Handshake / 0-RTT level) from a traffic secret.
+func VerifNewLongHeaderSealer(suiteID uint16, trafficSecret []byte, v protocol.Version) LongHeaderSealer {
+	suite := getCipherSuite(suiteID)
+	return newLongHeaderSealer(createAEAD(suite, trafficSecret, v), newHeaderProtector(suite, trafficSecret, true, v))
+}
+
+// VerifNewLongHeaderOpener creates a long header opener (Handshake / 0-RTT level) from a traffic secret.
+func VerifNewLongHeaderOpener(suiteID uint16, trafficSecret []byte, v protocol.Version) LongHeaderOpener {
+	suite := getCipherSuite(suiteID)
+	return newLongHeaderOpener(createAEAD(suite, trafficSecret, v), newHeaderProtector(suite, trafficSecret, true, v))
+}
+
+// VerifHKDFExpandLabel is hkdfExpandLabel with the hash of the given cipher suite.
+func VerifHKDFExpandLabel(suiteID uint16, secret, context []byte, label string, length int) []byte {
+	return hkdfExpandLabel(getCipherSuite(suiteID).Hash, secret, context, label, length)
+}
